@@ -9,8 +9,12 @@ CHECKS = {
              note="Same trusted base as C02; places are judged from the observed cards only. Known finding KF-HJ1 (wrong re-instatement) is attributed by a TLA+ predicate.", tech=TLA, ref='5/C03', engine='tlc-hj'),
  'C04': dict(text="The live regular expressions are translated to NFAs over the partition of Unicode induced by their character classes; TLC explores the complete product automaton (EventCodes.tla) and evaluates every union / disjointness clause in every product state: a decision for all strings, no length bound. A witness of every product state and transition is checked against the real re engine for all exported patterns.",
              note="Trusted: TLC, CPython re for the (regular) construct set used; the translator is not trusted (any disagreement with re on a product state or transition is a machinery failure).", tech="regex -> NFA product automaton explored exhaustively by TLC (complete state space), bound to re by state/transition witnesses", ref='5/C04', engine='tlc-lang'),
+ 'C06': dict(text="TLC checks the transcribed string algorithms (round-up, h:mm:ss formatting with carry) against the exact arithmetic definitions on the whole reduced-alphabet domain; the real round_up_str_num / format_seconds_as_time / parse_hms are swept over the same domain, seeded full-alphabet strings, the 0.001 s grid with all carry classes, floats with arithmetic residue and junk text, and TLC judges every observation with the same exact-integer relations (RoundUpOK, FormatFail, ParseFail, ParseTotalFail).",
+             note="Reduced digit alphabet {0,5,9} / {0,1,5,9} for the exhaustive part; durations logged exactly via fractions.Fraction. Trusted: TLC, the ~20-line text tokenizer of the harness.", tech="exact-integer TLA+ reference relations + TLC domain enumeration + TLC validation of recorded observations", ref='5/C06', engine='tlc-fn'),
  'C08': dict(text="TLC checks log replay and card round trip as invariants of the model, and order independence by exploring every interleaving of every planned round (MC_HJRound); on the real object from_actions(), from_matrix(to_matrix()) and all (small) or many (large) interleavings are executed and TLC compares the observed snapshots.",
              note="Same trusted base as C02. Known finding KF-HJ2 (pass in a jump-off column) attributed by a TLA+ predicate.", tech="TLA+ spec + TLC exhaustive interleaving exploration + trace validation of recorded executions", ref='5/C08', engine='tlc-hj'),
+ 'C16': dict(text="TLC explores three PlusCal sub-models at source-line granularity (lazily built table, per-call scratch on a shared grader, bounded cache at its limit) for 3 threads and every interleaving: the variants transcribing the code as it is now satisfy Linearizable / NoError, the as-it-was variants are refuted in the same run. The real functions are executed under a deterministic sys.settrace line scheduler, every schedule with <= 1 (quick) / 2 (thorough) forced pre-emptions at AST-detected visible lines, each execution in its own forked process (real first calls); TLC validates every recorded execution (result = single-threaded result per thread; published tables never partial).",
+             note="Granularity = source line inside athlib; C-level atomicity under the GIL assumed; pre-emption bound 1/2. Trusted: TLC, CPython settrace.", tech="PlusCal/TLA+ interleaving models checked by TLC + controlled-scheduler executions of the real code validated by TLC", ref='5/C16', engine='tlc-sched'),
  'C19': dict(text="TLC explores SchemaCache.tla over all histories of length <= 3 (two caches, limit 2, valid/invalid keys, expect_failure both ways) and proves outcome = fresh outcome; the pre-fix model is refuted in the same run. Every TLC history is instantiated with concrete bundled files and replayed in its own process from empty caches, plus long random histories that overflow the 20-entry caches; every concrete call is first made in a fresh forked process (the oracle); TLC validates each recorded history (monitor: out = fresh; model step: cache contents).",
              note="'Fresh process' is a fork of a parent that imported athlib and never called the helpers; sockets disabled. Trusted: TLC, jsonschema.", tech=TLA, ref='5/C19', engine='tlc-schema'),
 }
